@@ -66,8 +66,13 @@ ReleaseOf(t, st) ==
                             !.gone = IF broken THEN e.gone \cup {t} ELSE e.gone],
                   [NoCall EXCEPT !.op = "ReleasePlayers", !.id = t, !.players = ps, !.calls = x.calls], st)
 Release == \E t \in DOMAIN e.pend : ReleaseOf(t, "")
+\* ReleasePlayers naming a table nobody sits at, with nobody to hand back: accepted by the code in every phase (the break
+\* protocol releases the players of a table already deleted); nothing happens at the tables (seeded change R5b-C)
+ReleaseUnknown == \E x \in OpRelease(e.r, <<>>, AnyOrc) :
+        Emit([e EXCEPT !.r = x.r, !.member = ApplyCalls(e.member, x.calls)],
+             [NoCall EXCEPT !.op = "ReleasePlayers", !.id = e.r.nextId + 1, !.calls = x.calls], "")
 
-RunNext == mode = "run" /\ (Add \/ Status \/ Sync \/ SyncUnknown \/ Release) /\ UNCHANGED <<mode, left>>
+RunNext == mode = "run" /\ (Add \/ Status \/ Sync \/ SyncUnknown \/ Release \/ ReleaseUnknown) /\ UNCHANGED <<mode, left>>
 \* settle mode (C20)
 Enter == /\ WithSettle /\ mode = "run" /\ e.r.status >= Normal /\ e.pend = [x \in {} |-> 0] /\ DOMAIN e.r.tables # {}
          /\ mode' = "settle" /\ left' = DOMAIN e.r.tables /\ Emit(e, [NoCall EXCEPT !.op = "nop"], "begin")
